@@ -2548,7 +2548,11 @@ func (c *codegen) convertBuiltin(expr *ast.CallExpr) {
 			if expr.Ellipsis.IsValid() {
 				// The length of y is taken before the first element is appended:
 				// x and y are the same array in append(s, s...).
-				ast.Walk(c, expr.Args[1])                               // x y
+				ast.Walk(c, expr.Args[1]) // x y
+				// A nil slice has no elements to append.
+				emit.Opcodes(c.prog.BinWriter, opcode.DUP, opcode.ISNULL)
+				emit.Instruction(c.prog.BinWriter, opcode.JMPIFNOT, []byte{2 + 2})
+				emit.Opcodes(c.prog.BinWriter, opcode.DROP, opcode.NEWARRAY0)
 				emit.Opcodes(c.prog.BinWriter, opcode.DUP, opcode.SIZE) // x y len(y)
 				emit.Opcodes(c.prog.BinWriter, opcode.PUSH0)            // x y len(y) cnt=0
 				start := c.newLabel()
